@@ -1,0 +1,30 @@
+//go:build !verif
+
+package ristretto
+
+// Verification hook stubs. With the "verif" build tag off these are empty and
+// are inlined away; with the tag on (verif_on.go) they dispatch to a monitor.
+
+// Hook point identifiers passed to verifPoint: places between critical
+// sections where a monitor may observe, delay or hold the calling goroutine.
+const (
+	vpSetAfterStore = iota + 1
+	vpDelAfterStore
+	vpApplierItem
+	vpApplierAfterAdmit
+	vpApplierVictim
+	vpApplierTomb
+	vpApplierItemDone
+	vpSweepDone
+	vpClearStopped
+	vpClearDrained
+	vpClearPolicyCleared
+	vpSweepGrabbed
+	vpSweepKey
+	vpSweepChecked
+)
+
+func verifPoint(owner any, point int, arg uint64) {}
+
+func verifSampled(owner any, key uint64, incHits int64, sample []*policyPair, minKey uint64, minHits int64) {
+}
